@@ -120,6 +120,10 @@ def generate(tier, seed):
         u = G.universe("ACD", 5)
         for k in (1, 2, 3):
             yield "ham_self", {"seqs": u, "k": k, "engines": ["symdel", "kdtree"] + (["hash_based"] if k == 1 else [])}, True
+    # one residue repeated 255 / 256 / 257 times in equal-length partners (composition counts around 2^8)
+    long256 = ["C" + "A" * 256 + "F", "C" + "A" * 255 + "G" + "F", "C" + "A" * 256 + "W", "A" * 258, "G" + "A" * 257, "C" + "A" * 255 + "GF"]
+    for k in (1, 2):
+        yield "ham_self", {"seqs": long256, "k": k, "engines": ["symdel", "nearest_neighbor", "kdtree"] + (["hash_based"] if k == 1 else [])}, True
     # shift pairs: Levenshtein-close by a shift, Hamming-far
     shifts = ["ACACAC", "CACACA", "ACACA", "CACAC", "AACACA", "ACACAA", "ACAC", "CACA"]
     for k in (1, 2, 3):
